@@ -1,16 +1,22 @@
-"""Sidecar contracts for the communicator's line assembly (C16) - bounded stand-in only."""
+"""Sidecar contracts for the communicator's line / block assembly (C16)."""
 from pyvc.native import *      # noqa: F401,F403
 
 CONTEXT_FILE = 'frappy/lib/asynconn.py'
 SOURCES = ['frappy/lib/asynconn.py', 'frappy/errors.py']
 GHOSTS = ['rx']
+UFS = {'JOIN': (['val'], 'val', 'bytes')}
 ASSUMPTIONS = [
-    'no deductive contract in this round: the receive loop needs the concatenation of a log of received chunks as a ghost value'
-    ' (an inductive definition over the log) - planned, not built; the contract below is evaluated natively',
+    'A3/A6/A7 as for the other properties',
+    'JOIN(rx) is the concatenation of the chunks received so far: an uninterpreted function whose defining equation'
+    ' JOIN(log + [chunk]) == JOIN(log) + chunk is stated by the contract of recv(); recv() returns bytes (b\'\' on timeout) or raises',
+    'the ghost parameter P (bytes consumed before the call) makes the conservation law P + buffer == everything received expressible',
     'request/reply pairing under the communicate lock and reconnection (StringIO / BytesIO.communicate, check_connection) are only'
     ' covered by the repository tests and the two fix: commits of round 1',
 ]
-CLASSES = {}
+CLASSES = {
+    'AsynConn': dict(fields={'_rxbuffer': 'bytes', 'end_of_line': 'bytes', 'timeout': 'any'}, virtual=['recv'],
+                     inv=['len(self.end_of_line) >= 1']),
+}
 
 
 def Received(rx0, rx1):
@@ -28,6 +34,32 @@ def LineTaken(conn, buf0, rx0, rx1, result):
 
 
 CONTRACTS = [
+    dict(key='iface::AsynConn.recv', file=None, func=None, signature='self', serves=[], trusted=True, requires=[],
+         ghost_modifies=['rx'],
+         ensures={'bytes': 'is_bytes(result)', 'logged': 'rx == old(rx) + [result]', 'joined': 'JOIN(rx) == JOIN(old(rx)) + result'},
+         raises={'cls': 'issubclass(exc, ConnectionError) or issubclass(exc, OSError)', 'nothing': 'rx == old(rx)'}),
+    # conservation: with P the bytes consumed before the call, P + buffer == JOIN(rx) before, and after the call
+    # P + line + eol + buffer == JOIN(rx) (a line was taken) or P + buffer == JOIN(rx) (nothing taken, nothing lost)
+    dict(key='AsynConn.readline[vc]', file='frappy/lib/asynconn.py', func='AsynConn.readline', serves=['C16'], self_type='AsynConn',
+         ghost_params={'P': 'bytes'},
+         requires=['inv(self)', 'timeout is None or is_finite_float(timeout)', 'JOIN(rx) == P + self._rxbuffer'],
+         modifies=['_rxbuffer'], ghost_modifies=['rx'],
+         ensures={'line': 'implies(result is not None, is_bytes(result) and JOIN(rx) == P + result + self.end_of_line + self._rxbuffer'
+                          ' and self.end_of_line not in result)',
+                  'none': 'implies(result is None, JOIN(rx) == P + self._rxbuffer and self.end_of_line not in self._rxbuffer)',
+                  'inv': 'inv(self)'},
+         reach={'line': 'result is not None', 'none': 'result is None'},
+         raises={'cls': 'issubclass(exc, TimeoutError) or issubclass(exc, ConnectionError) or issubclass(exc, OSError)',
+                 'nothing_lost': 'JOIN(rx) == P + self._rxbuffer', 'inv': 'inv(self)'}),
+    dict(key='AsynConn.readbytes[vc]', file='frappy/lib/asynconn.py', func='AsynConn.readbytes', serves=['C16'], self_type='AsynConn',
+         ghost_params={'P': 'bytes'}, params={'nbytes': 'int'},
+         requires=['inv(self)', 'timeout is None or is_finite_float(timeout)', 'nbytes >= 0', 'JOIN(rx) == P + self._rxbuffer'],
+         modifies=['_rxbuffer'], ghost_modifies=['rx'],
+         ensures={'block': 'implies(result is not None, is_bytes(result) and len(result) == nbytes and JOIN(rx) == P + result + self._rxbuffer)',
+                  'none': 'implies(result is None, JOIN(rx) == P + self._rxbuffer and len(self._rxbuffer) < nbytes)',
+                  'inv': 'inv(self)'},
+         raises={'cls': 'issubclass(exc, TimeoutError) or issubclass(exc, ConnectionError) or issubclass(exc, OSError)',
+                 'nothing_lost': 'JOIN(rx) == P + self._rxbuffer', 'inv': 'inv(self)'}),
     dict(key='AsynConn.readline', vc=False, file='frappy/lib/asynconn.py', func='AsynConn.readline', serves=['C16'],
          self_type='AsynConn', requires=[],
          ensures={'line': 'LineTaken(self, old(self._rxbuffer), old(rx), rx, result)'},
@@ -39,5 +71,10 @@ CONTRACTS = [
                   'none': 'implies(result is None, self._rxbuffer == old(self._rxbuffer) + Received(old(rx), rx) and len(self._rxbuffer) < nbytes)'},
          raises={'timeout': 'issubclass(exc, TimeoutError) and self._rxbuffer == old(self._rxbuffer) + Received(old(rx), rx)'}),
 ]
-LOOPS = {}
+LOOPS = {
+    'AsynConn.readline#0': dict(header='True', ghost=['rx'], modifies=['_rxbuffer'],
+        invariant={'inv': 'inv(self)', 'conserved': 'JOIN(rx) == P + self._rxbuffer'}),
+    'AsynConn.readbytes#0': dict(header='len(self._rxbuffer) < nbytes', ghost=['rx'], modifies=['_rxbuffer'],
+        invariant={'inv': 'inv(self)', 'conserved': 'JOIN(rx) == P + self._rxbuffer'}),
+}
 register(globals())
